@@ -149,7 +149,7 @@ Print Assumptions ownership_partition_through_failures_over_batches.
 
 Theorem recovery_rebuilds_the_partition :
   forall c version total jl img,
-  Recovery.c_ro c = false -> Codec.has_token version = true -> total <= Recovery.U64MAX ->
+  (Recovery.c_ro c = false \/ jl = []) -> Codec.has_token version = true -> total <= Recovery.U64MAX ->
   forall its st0 fuel,
   (length its < fuel)%nat ->
   Recovery.rs_fs st0 = mkfs [] (total * FEOX_BLOCK_SIZE) 0 0 -> Recovery.rs_last_end st0 = FEOX_DATA_START_BLOCK -> Recovery.rs_idx st0 = [] ->
@@ -168,7 +168,7 @@ Theorem recovery_rebuilds_the_partition :
 Proof. exact ScanQuiescentProofs.quiescent_data_area_is_partitioned. Qed.
 Check recovery_rebuilds_the_partition :
   forall c version total jl img,
-  Recovery.c_ro c = false -> Codec.has_token version = true -> total <= Recovery.U64MAX ->
+  (Recovery.c_ro c = false \/ jl = []) -> Codec.has_token version = true -> total <= Recovery.U64MAX ->
   forall its st0 fuel,
   (length its < fuel)%nat ->
   Recovery.rs_fs st0 = mkfs [] (total * FEOX_BLOCK_SIZE) 0 0 -> Recovery.rs_last_end st0 = FEOX_DATA_START_BLOCK -> Recovery.rs_idx st0 = [] ->
